@@ -143,6 +143,7 @@ static int do_io(MPI_File fh, bool wr, bool at, bool coll, MPI_Offset offset, vo
                 if (off < 0) usage_error(std::string(nm) + ": negative file offset");
                 if (off < lastend) bad = true;
                 lastend = off + n;
+                if (getenv("VERIF_DEBUG_IO")) fprintf(stderr, "  [io] r%d %s file off=%lld len=%lld first=%d\n", cur_rank(), nm, off, n, n ? p[0] : -1);
                 f.ino->write((uint64_t)off, p, (uint64_t)n); p += n;
             });
             if (bad) usage_error(std::string(nm) + ": file view addresses overlapping or decreasing file offsets within one write request");
